@@ -20,7 +20,7 @@ COMPONENTS = {"real": ["Exchange", "Broker", "Rebalancing.make_trades", "Weights
               "harness": ["user-defined AbstractContract subclasses", "Fraction filter model"], "stub": []}
 PROBE_FLOORS = {"exact_threshold_emit": 5, "below_threshold_skip": 50, "liquidation_below_threshold": 10,
                 "sublot_skip": 30, "negative_truncation": 20, "env_below_threshold_skip": 100,
-                "env_at_or_above_threshold_emit": 300}
+                "env_at_or_above_threshold_emit": 300, "market_moved_between_preview_and_execution": 600}
 
 PROFILE = {
     "oracles": ["c12"],
